@@ -420,7 +420,15 @@ def simple_op(world, op):
     if kind == "remove":
         line = f"cache remove {op[1]}"
         try:
-            c.remove(world.uri[op[1]])
+            # the same entry under any directive prefix: removal takes the string a request would take
+            form = world.run.rng.choice(["plain", "plain", "validate", "both"])
+            world.run.count("remove_form_" + form)
+            target = world.uri[op[1]] if form == "plain" else unparsed_uri(world, op[1], "vt", form == "both")
+            was_in = bool(c.in_cache(world.uri[op[1]])[0])
+            c.remove(target)
+            if was_in and bool(c.in_cache(world.uri[op[1]])[0]):
+                world.run.violation("an entry is still in the cache after its removal (it would be served without contacting the resource)",
+                                    dict(line=line, removed_as=target))
         except Exception as e:
             out = "raise-" + type(e).__name__
             world.run.violation("remove() raised", dict(line=line, error=repr(e)))
